@@ -6,6 +6,7 @@ package names
 import (
 	"fmt"
 	"go/format"
+	"regexp"
 	"sort"
 	"strings"
 )
@@ -36,6 +37,8 @@ type CallSpec struct {
 	// Inner: name of a deriveKeys-style call wrapped around the argument (NAME(INNER(m), …)): the argument
 	// type of NAME is unknown until INNER has been generated, so the call needs a second generation pass.
 	Inner string `json:"inner,omitempty"`
+	// Builtin: the call site is an ARGUMENT of a builtin call: append(rs, NAME(…)) or panic(NAME(…))
+	Builtin string `json:"builtin,omitempty"`
 }
 
 // Call builds a call with the usual arity of the plugin.
@@ -169,8 +172,28 @@ func PrefixArgs(p string, overrides map[string]string) []string {
 
 // ---------------------------------------------------------------- source emission
 
-// wrapper: the user function holding one derive call.
+var wrapperRe = regexp.MustCompile(`^func (Wrap\d+)\(([^)]*)\) (.*) \{ return (.*) \}\n$`)
+
+// wrapper: the user function holding one derive call; with Builtin set the call is an argument of a builtin.
 func wrapper(i int, c CallSpec, t TypeSpec) string {
+	w := plainWrapper(i, c, t)
+	if c.Builtin == "" {
+		return w
+	}
+	m := wrapperRe.FindStringSubmatch(w)
+	if m == nil {
+		return w // no result to hand to a builtin
+	}
+	switch c.Builtin {
+	case "append":
+		return fmt.Sprintf("func %s(%s) []%s {\n\tvar rs []%s\n\treturn append(rs, %s)\n}\n", m[1], m[2], m[3], m[3], m[4])
+	case "panic":
+		return fmt.Sprintf("func %s(%s) {\n\tpanic(%s)\n}\n", m[1], m[2], m[4])
+	}
+	return w
+}
+
+func plainWrapper(i int, c CallSpec, t TypeSpec) string {
 	f := fmt.Sprintf("Wrap%d", i)
 	if c.Inner != "" {
 		// t is map[K]V; INNER(a) is []K
